@@ -104,6 +104,10 @@ def job(spec):
                 if len(cells) >= 3:
                     data[cells[0]] = 2 ** 24
                     data[cells[-1]] = -(2 ** 24)
+    elif spec["data"] == "runs":      # runs of all-zero samples (1-3 long) between non-zero ones: whole gulps of zeros
+        r = int(rng.integers(1, 4))
+        data = rng.integers(1, max(2, top), size=(n, c), dtype=np.int64)
+        data[(np.arange(n) // r) % 2 == 1] = 0
     elif spec["data"] == "identity" and nbits == 32:
         # 32-bit samples are floats: negative values and values far beyond one byte are ordinary data there
         data = (np.arange(n * c, dtype=np.int64) * 37 - 3000).reshape(n, c)
